@@ -172,8 +172,19 @@ def read_members(path):
                 else:
                     out.append((rel, blob))
         return out
+    out = []
     with zipfile.ZipFile(path) as z:
-        return [(zi.filename, z.read(zi.filename)) for zi in z.infolist() if not zi.is_dir()]
+        for zi in z.infolist():
+            if zi.is_dir():
+                continue
+            blob = z.read(zi.filename)
+            if zi.filename.lower().endswith("index.zip"):
+                # single-file archive that wraps a package folder: Index/* live in a nested zip
+                with zipfile.ZipFile(io.BytesIO(blob)) as z2:
+                    out.extend((zi2.filename, z2.read(zi2.filename)) for zi2 in z2.infolist() if not zi2.is_dir())
+            else:
+                out.append((zi.filename, blob))
+    return out
 
 
 def write_members(path, members, compress=zipfile.ZIP_STORED):
